@@ -37,6 +37,11 @@ LEVEL_TEXT += (
     "only when joined - so anything a worker reads from the enclosing "
     "frame after its creation (a loop variable captured by a closure) "
     "differs between the two.")
+LEVEL_TEXT += (
+    " Added in the hunting round (defects found by independent agents "
+    "on the unchanged tree, DESIGN.md 9.4 / 9.6): "
+    "(O7) an integrand that raises makes every threaded configuration "
+    "raise like the serial one.")
 LEVEL_NOTE = (
     "Assumes the integrand is pure and numpy.array_split yields disjoint, "
     "covering, order-preserving chunks (its contract). NumPy/GIL internals "
